@@ -18,4 +18,5 @@ for id in "$@"; do
   echo "RESULT $sd check=$id exit=$rc violations=$n"
   grep -m2 '^\[check\] .*' "$d/out.$id" | grep -v "harness built" | head -2
   if [ "$rc" = 2 ]; then tail -5 "$d/out.$id"; fi
+  if [ -n "${KEEP:-}" ]; then mkdir -p "$KEEP"; cp "$d/out.$id" "$KEEP/out.$id"; cp -r "$d/evidence" "$KEEP/" 2>/dev/null; cp "$d"/work/pipe/*-gen.ndjson "$KEEP/" 2>/dev/null; fi
 done
